@@ -238,6 +238,8 @@ var listOverrides = []struct {
 	{"constant", true, []fa{{coordAddress, coordStart}}},
 	{"other+coord", true, []fa{{otherAddress, 1}, {coordAddress, coordStart}}},
 	{"garbage", true, []fa{{"not-an-address", 5}}},
+	{"other@0", true, []fa{{otherAddress, 0}}},
+	{"other@0+coord@1", true, []fa{{otherAddress, 0}, {coordAddress, 1}}},
 }
 
 type caseB struct {
@@ -251,6 +253,11 @@ type entryOut struct {
 	Start    uint32 `json:"start"`
 	HashHex  string `json:"program_hash"`
 	Resolved bool   `json:"resolved"`
+	// for entries with a valid address: does the real helper, handed the resulting list, refuse
+	// a spend from / a payment to that address at heights 0, 1, start-1, start and the
+	// coordinated height S?
+	Valid    bool            `json:"valid_address"`
+	Enforced map[string]bool `json:"enforced_at"`
 }
 
 type resB struct {
@@ -316,6 +323,26 @@ func runB(scr string, c caseB) resB {
 			o.Resolved = true
 			o.HashHex = common.BytesToHexString(e.ProgramHash.Bytes())
 		}
+		if ph, err := common.Uint168FromAddress(e.Address); err == nil {
+			o.Valid = true
+			o.Enforced = map[string]bool{}
+			hs := map[uint32]bool{0: true, 1: true, e.DisableStartHeight: true, coordStart: true}
+			if e.DisableStartHeight > 0 {
+				hs[e.DisableStartHeight-1] = true
+			}
+			for h := range hs {
+				var in common2.Input
+				in.Previous.TxID[0] = 0x77
+				spend := transaction.CreateTransaction(common2.TxVersion09, common2.TransferAsset, 0, nil, nil, []*common2.Input{&in}, []*common2.Output{{Value: 1, ProgramHash: neutral(1)}}, 0, nil)
+				refs := map[*common2.Input]common2.Output{&in: {Value: 10, ProgramHash: *ph}}
+				pay := transaction.CreateTransaction(common2.TxVersion09, common2.TransferAsset, 0, nil, nil, []*common2.Input{&in}, []*common2.Output{{Value: 1, ProgramHash: *ph}}, 0, nil)
+				refs2 := map[*common2.Input]common2.Output{&in: {Value: 10, ProgramHash: neutral(2)}}
+				s1 := transaction.VerifCheckFrozenAddresses(spend, refs, h, got.FrozenAddresses) != nil
+				s2 := transaction.VerifCheckFrozenAddresses(pay, refs2, h, got.FrozenAddresses) != nil
+				o.Enforced[fmt.Sprintf("%d", h)] = s1 && s2
+				o.Enforced[fmt.Sprintf("%d-any", h)] = s1 || s2
+			}
+		}
 		res.List = append(res.List, o)
 	}
 	hA, hB := mustHash(coordAddress), mustHash(otherAddress)
@@ -341,8 +368,40 @@ func judgeB(r *evid.Run, x resB) string {
 	if !x.SameObj {
 		r.Violate("C32|config|global-parameters-differ", "config.Parameters is not the configuration SetupConfig returned", art)
 	}
+	// whatever list a network ends up with (mainnet: the coordinated one; other networks: the
+	// local one): every entry with a valid address must come out of Sterilize with its program
+	// hash resolved and be enforced exactly from its start height on
+	for _, e := range x.List {
+		if !e.Valid {
+			continue
+		}
+		if !e.Resolved {
+			r.Violate("C32|config|entry-unresolved-after-sterilize", fmt.Sprintf("frozen entry %s (start height %d) has no program hash after SetupConfig/Sterilize, so the check skips it", e.Address, e.Start), art)
+			continue
+		}
+		// the earliest start among the entries naming this address decides
+		start := e.Start
+		for _, o := range x.List {
+			if o.Valid && o.Address == e.Address && o.Start < start {
+				start = o.Start
+			}
+		}
+		for hs, enforced := range e.Enforced {
+			if strings.HasSuffix(hs, "-any") {
+				continue
+			}
+			var h uint32
+			fmt.Sscanf(hs, "%d", &h)
+			if h >= start && !enforced {
+				r.Violate("C32|config|entry-not-enforced-from-start", fmt.Sprintf("frozen entry %s (start height %d): a spend from / payment to it at height %d passes the real check with the configured list", e.Address, e.Start, h), art)
+			}
+			if h < start && e.Enforced[hs+"-any"] {
+				r.Violate("C32|config|entry-enforced-before-start", fmt.Sprintf("frozen entry %s (start height %d) is already enforced at height %d", e.Address, e.Start, h), art)
+			}
+		}
+	}
 	if !isMainnetName(x.Case.Net) {
-		// other networks keep their own (or an empty) list: nothing is promised
+		// other networks keep their own (or an empty) list
 		return "other-net|" + strings.Join(names, ",")
 	}
 	hA := mustHash(coordAddress)
